@@ -13,9 +13,14 @@
    internal loop-top and successor steps are silent).  With Requests = FALSE the recording has been
    projected to the property-level events (init, upload, deliver, stop, drop, return) and every
    request action is a silent step TLC infers.
+   With Slack = TRUE (only meaningful with Requests = FALSE, budgets set out of reach) the retry budget
+   is not fixed either: C18 says "within the retry budget" without naming it, and quantifies over chunks
+   that become visible after 0, 1 or 2 polling attempts -- so giving up is allowed at any failed attempt
+   from the third on (SlackGiveUp), never earlier.  This is the weakest, property-only reading; a
+   recording it rejects violates the statement of C18 whatever the shape of the implementation.
    Acceptance: the furthest line reached (TLCSet register 7) is the end of the recording. *)
 EXTENDS Poll, Json, IOUtils
-CONSTANT Requests
+CONSTANTS Requests, Slack
 
 Rec == ndJsonDeserialize(IOEnv.TRACE)
 VARIABLE l
@@ -73,7 +78,14 @@ EvReqFail == /\ ~Requests /\ Is("req") /\ Adv
                 \/ (pc = "getMeta" /\ Rec[l].fault /\ PGetMeta(FALSE))
                 \/ (pc = "get" /\ (Visible(target) => Rec[l].fault) /\ PGet(FALSE))
 EvReqStutter == ~Requests /\ Is("req") /\ Adv /\ UNCHANGED vars
-SilentRequests == SilentSuccess \/ EvReqFail \/ EvReqStutter
+MinAttempts == 3
+SlackGiveUp == /\ Slack /\ ~Requests /\ Is("req") /\ Adv
+               /\ result = "running" /\ att + 1 >= MinAttempts
+               /\ \/ pc = "listNext" /\ NextVolEmpty
+                  \/ pc = "get" /\ (Visible(target) => Rec[l].fault)
+               /\ att' = att + 1 /\ Err("budget")
+               /\ UNCHANGED <<env, latestVol, target, prev, cons, stop, faults, hist, histAtStop, window>>
+SilentRequests == SilentSuccess \/ EvReqFail \/ EvReqStutter \/ SlackGiveUp
 
 TNext == EvStat \/ EvProbe \/ EvUpload \/ EvStop \/ EvDrop \/ (Requests /\ (EvList \/ EvGet)) \/ EvDeliver \/ EvReturn \/ SilentAlways \/ SilentSendFail \/ SilentRequests
 TSpec == TInit /\ [][TNext]_tvars
